@@ -98,6 +98,7 @@ class Result:
         self.blocks: list[tuple[int, bytes]] = []  # in the order the writer must receive them is NOT asserted
         self.writes: list[tuple[int, int]] = []
         self.labels: list[tuple[str, int]] = []
+        self.labels_outside_loops: list[tuple[str, int]] = []  # defined neither in a loop iteration nor in anything nested in one
         self.stmt_spans: list[tuple[int, int]] = []  # (offset, length) of each emitting statement
         self.stats: dict = {}
 
@@ -324,6 +325,8 @@ class Assembler:
                 scope.define(st["n"], run)
                 if not self._in_loop(scope):
                     res.labels.append((st["n"], run))
+                if not self._under_loop(scope):
+                    res.labels_outside_loops.append((st["n"], run))
                 placed.append((item, run, off))
                 continue
             n = self.size_of(item)
@@ -377,6 +380,13 @@ class Assembler:
     def _in_loop(self, scope):
         # labels of loop iterations (and of anything nested in them) are not listed by name
         return scope.internal
+
+    def _under_loop(self, scope):
+        while scope is not None:
+            if scope.internal:
+                return True
+            scope = scope.parent
+        return False
 
     def _addr(self, st, scope):
         a = st["a"]
